@@ -119,9 +119,15 @@ theorem add_spec (w : Nat) (hw : 0 < w) (x r : EI) (hx : Canon w x) (hr : Canon 
       rw [h.1]; simp [toInt, hxs, hrs, absE]; omega
 
 
-/-- `operator-=` outside the defect region (negative `*this` with non-negative rhs). -/
-theorem sub_spec (w : Nat) (hw : 0 < w) (x r : EI) (hx : Canon w x) (hr : Canon w r)
-    (hregion : x.sign = false ∨ r.sign = true ∨ x.limbs = []) :
+theorem toNat_of_isZero (w : Nat) {x : EI} (h : isZero x = true) : toNat w x.limbs = 0 := by
+  unfold isZero at h
+  rcases hl : x.limbs with _ | ⟨v, _ | ⟨v', t⟩⟩
+  · rfl
+  · rw [hl] at h; simp at h; simp [toNat, h]
+  · rw [hl] at h; simp at h
+
+/-- `operator-=`: the integer difference, canonical result — all four sign combinations, any lengths. -/
+theorem sub_spec (w : Nat) (hw : 0 < w) (x r : EI) (hx : Canon w x) (hr : Canon w r) :
     toInt w (sub w x r) = toInt w x - toInt w r ∧ Canon w (sub w x r) := by
   unfold sub
   cases hrs : r.sign with
@@ -132,13 +138,35 @@ theorem sub_spec (w : Nat) (hw : 0 < w) (x r : EI) (hx : Canon w x) (hr : Canon 
     rw [h.1, toInt_absE]; simp [toInt, hrs]
   | false =>
     simp only [Bool.false_eq_true, if_false]
-    have h := subCore_spec w hx hr hrs
-    refine ⟨?_, h.2⟩
-    rw [h.1]
-    rcases hregion with h1 | h1 | h1
-    · simp [toInt, h1, hrs]
-    · rw [hrs] at h1; cases h1
-    · simp [toInt, h1, hrs, toNat]
-
+    cases hxs : x.sign with
+    | true =>
+      simp only [if_true]
+      have h := add_spec w hw (absE x) r (canon_absE hx) hr
+      refine ⟨?_, h.2⟩
+      have hv : toInt w (add w (absE x) r) = (toNat w x.limbs : Int) + toNat w r.limbs := by
+        rw [h.1, toInt_absE]; simp [toInt, hrs]
+      -- the magnitude of the sum
+      have hmag : (toNat w (add w (absE x) r).limbs : Int) = (toNat w x.limbs : Int) + toNat w r.limbs := by
+        have : toInt w (add w (absE x) r) = (toNat w (add w (absE x) r).limbs : Int) ∨
+            toInt w (add w (absE x) r) = -(toNat w (add w (absE x) r).limbs : Int) := by
+          unfold toInt; split <;> simp
+        rcases this with e | e
+        · rw [← e, hv]
+        · rw [hv] at e; omega
+      by_cases hz : isZero (add w (absE x) r) = true
+      · have h0 := toNat_of_isZero w hz
+        simp only [toInt, hz, Bool.not_true, Bool.false_eq_true, if_false, hxs, hrs, if_true]
+        rw [h0] at hmag ⊢; omega
+      · have hz' : isZero (add w (absE x) r) = false := by
+          cases hh : isZero (add w (absE x) r) with
+          | false => rfl
+          | true => exact absurd hh hz
+        simp only [toInt, hz', Bool.not_false, if_true, hxs, hrs, Bool.false_eq_true, if_false]
+        rw [hmag]; omega
+    | false =>
+      simp only [Bool.false_eq_true, if_false]
+      have h := subCore_spec w hx hr hrs
+      refine ⟨?_, h.2⟩
+      rw [h.1]; simp [toInt, hxs, hrs]
 
 end UVerif.EInt
